@@ -109,6 +109,11 @@ class QuantizedValue:
     bucket_size = self.bucket_size[jnp.newaxis, ...]
     val = self.quantized.astype(float_dtype) * bucket_size
     if self.extract_diagonal:
-      val += jnp.diag(self.diagonal)
+      # Select rather than add: the quantized part is exactly zero on the
+      # diagonal, and an addition would flush subnormal diagonal entries (and
+      # lose the sign of -0.0) on backends that flush denormals to zero.
+      diagonal = jnp.diag(self.diagonal)
+      on_diagonal = jnp.eye(diagonal.shape[0], dtype=bool)
+      val = jnp.where(on_diagonal, diagonal, val)
     return val
 
